@@ -74,9 +74,31 @@ def rejection_atoms(fn: ast.AST) -> list[tuple[str, str, ast.AST]]:
 
     out: list[tuple[str, str, ast.AST]] = []
 
+    # loop variables stand for (elements of) what the loop iterates over
+    loop_iter: dict[str, ast.AST] = {}
+    for lp in N.walk_no_nested_defs(fn):
+        if isinstance(lp, ast.For):
+            for t in ast.walk(lp.target):
+                if isinstance(t, ast.Name) and t.id not in loop_iter:
+                    loop_iter[t.id] = lp.iter
+
+    class _LoopVars(ast.NodeTransformer):
+        def __init__(self):
+            self.depth = 0
+
+        def visit_Name(self, n):
+            if isinstance(n.ctx, ast.Load) and n.id in loop_iter and self.depth < 4:
+                self.depth += 1
+                try:
+                    return self.visit(ast.fix_missing_locations(ast.copy_location(X.expand_locals(loop_iter[n.id], fn), n)))
+                finally:
+                    self.depth -= 1
+            return n
+
     def add(test: ast.AST, node: ast.AST) -> None:
         try:
             e = X.expand_locals(test, fn)
+            e = _LoopVars().visit(e)
             nf = N.boolean_nf(X.substitute_len(X.canon(e)))
         except Exception:
             nf = N.Atom(None, "true", X.U(test))
